@@ -18,4 +18,4 @@ def run(ctx):
     jobs = sessions(ctx, cfgs, "C18")
     finish(ctx, jobs, "C18")
     ctx.exhaustive = True
-    ctx.assumptions += ["defects are built by the generator: branch, branchalt, join (a piece of another contig attached through a haplotype node), cycle3, cycle3in"]
+    ctx.assumptions += ["defects are built by the generator: branch, branchalt, branchref (a dead end on the reference allele of a bubble), join (a piece of another contig attached through a haplotype node), cycle3, cycle3in"]
